@@ -9,7 +9,7 @@ compares what it observes with the dataflow semantics of the property statements
 interpreter over the pipeline description (`Ref` below).
 
 Bound (stated in the evidence):
-  acyclic family   15 templates (plain, shared, switch, one-of, nested constructs; <= 8 node classes) x every placement of at
+  acyclic family   16 templates (plain, shared, switch, one-of, nested constructs; <= 8 node classes) x every placement of at
                    most one failing node x both switch labels x 5 completion orders; each chart is run, run again, run
                    twice overlapped, and (after a failing placement) run once more with nothing failing
   retry family     attempts in {1,2,3} x use_default x exceptions in {narrow, default} x every outcome sequence over
@@ -47,7 +47,7 @@ from ml_pipeline_engine.node import ProcessorBase, RecurrentProcessor
 import logging
 logging.disable(logging.CRITICAL)
 
-BOUND = ('acyclic: 15 templates x <=1 failing node at every position x both switch labels x 5 completion orders x '
+BOUND = ('acyclic: 16 templates x <=1 failing node at every position x both switch labels x 5 completion orders x '
          '(first run, second run, two overlapped runs); retry: attempts 1..3 x use_default x narrow/default exceptions x '
          'all outcome sequences; recurrent: 3 templates x 0..max+1 requested re-iterations x default / no default, and a retrying '
          'node inside a recurrent subgraph x 25 outcome sequences; collaborators: 5 templates x every event / save site raising, '
@@ -194,6 +194,8 @@ def acyclic_templates():
         Out=[('p', ('sw', 'D', [('l0', 'G'), ('l1', 'Y')])), ('q', ('in', 'F'))])))
     T.append(('uneven-depths', dict(In=RAW, A1=[('a', ('in', 'In'))], A2=[('a', ('in', 'A1'))], B=[('b', ('in', 'In'))],
                                     Out=[('p', ('in', 'A2')), ('q', ('in', 'B'))])))
+    T.append(('very-uneven-depths', dict(In=RAW, L1=[('a', ('in', 'In'))], L2=[('a', ('in', 'L1'))], L3=[('a', ('in', 'L2'))],
+                                         S=[('b', ('in', 'In'))], Out=[('p', ('in', 'L3')), ('q', ('in', 'S'))])))
     T.append(('wide-and-deep', dict(In=RAW, A=[('a', ('in', 'In'))], B=[('b', ('in', 'In'))], C=[('c', ('in', 'In'))],
                                     U=[('u', ('in', 'A'))], V=[('v', ('in', 'U'))],
                                     W=[('w1', ('in', 'A')), ('w2', ('in', 'B')), ('w3', ('in', 'C'))],
